@@ -20,6 +20,9 @@ type c09Case struct {
 	D    int64     `json:"d"`
 	// Cap: extra capacity of the Items slice (the implementation deletes in place)
 	Cap int `json:"cap"`
+	// History: the Subtitles value went through other operations first, while it held other cues (ordered, merged,
+	// fragmented, unfragmented); the caller then put the cues of this case into its public Items field
+	History bool `json:"history,omitempty"`
 }
 
 func init() { register("c09", checkC09) }
@@ -30,6 +33,15 @@ func checkC09(c c09Case) string {
 		grown := make([]*astisub.Item, len(b.sub.Items), len(b.sub.Items)+c.Cap)
 		copy(grown, b.sub.Items)
 		b.sub.Items = grown
+	}
+	if c.History {
+		keep := b.sub.Items
+		b.sub.Items = []*astisub.Item{{StartAt: time.Second, EndAt: 2 * time.Second, Lines: textLines("h")}, {StartAt: 3 * time.Second, EndAt: 9 * time.Second, Lines: textLines("h")}}
+		b.sub.Order()
+		b.sub.Merge(astisub.NewSubtitles())
+		b.sub.Fragment(2 * time.Second)
+		b.sub.Unfragment()
+		b.sub.Items = keep
 	}
 	d := time.Duration(c.D)
 	b.sub.Add(d)
@@ -236,7 +248,7 @@ func TestC09(t *testing.T) {
 		if d < -maxEnd-1 {
 			d = -maxEnd - 1
 		}
-		c := c09Case{Cues: cues, D: d, Cap: rapid.IntRange(0, 2).Draw(rt, "cap")}
+		c := c09Case{Cues: cues, D: d, Cap: rapid.IntRange(0, 2).Draw(rt, "cap"), History: rapid.IntRange(0, 3).Draw(rt, "history") == 0}
 		nt, ls := c09NonTrivial(c)
 		ev.Case(nt, fmt.Sprintf("%v", c), append(ls, "random")...)
 		if nt {
